@@ -29,6 +29,28 @@ def isDot3 (c : Cursor) : Out Bool :=
     pure (byteAt p 0 < 8)
   else pure false
 
+/-- the `switch (dlt())` of the parsing constructor on the stream behind the header (`if (stream) { … }`) -/
+def dispatch (p : Ppi) (c : Cursor) : Out (Ppi × Inner) :=
+  if c.toBool then
+    if p.dlt == DLT_IEEE802_11 then
+      -- parse_80211: drop the 4-byte FCS when the 802.11-Common field says "FCS at end"
+      let fcs := p.data.length ≥ 13 && byteAt p.data 12 % 2 == 1
+      if fcs && c.size < 4 then .throw .malformedPacket else
+      let c := if fcs then c.setSize (c.size - 4) else c
+      (Cursor.rest "PPI::parse_80211" c) >>= fun rest => pure (p, .cls "Dot11*" rest false)
+    else if p.dlt == DLT_EN10MB then
+      (isDot3 c) >>= fun d3 =>
+      (Cursor.rest "PPI::PPI inner" c) >>= fun rest =>
+      pure (p, .cls (if d3 then "Dot3" else "EthernetII") rest false)
+    else if p.dlt == DLT_IEEE802_11_RADIO then
+      (Cursor.rest "PPI::PPI inner" c) >>= fun rest => pure (p, .cls "RadioTap" rest false)
+    else if p.dlt == DLT_NULL then
+      (Cursor.rest "PPI::PPI inner" c) >>= fun rest => pure (p, .cls "Loopback" rest false)
+    else if p.dlt == DLT_LINUX_SLL then
+      (Cursor.rest "PPI::PPI inner" c) >>= fun rest => pure (p, .cls "SLL" rest false)
+    else pure (p, .none)
+  else pure (p, .none)
+
 /-- `PPI::PPI(const uint8_t*, uint32_t)` -/
 def parse (b : Bytes) : Out (Ppi × Inner) := do
   let c := Cursor.ofBytes b
@@ -38,30 +60,7 @@ def parse (b : Bytes) : Out (Ppi × Inner) := do
   if length > b.length || length < 8 then .throw .malformedPacket else
   let optionsLength := length - 8
   let (data, c) ← if optionsLength > 0 then c.read optionsLength else pure ([], c)   -- stream.read(data_, options_length)
-  let p : Ppi := ⟨byteAt h 0, byteAt h 1, length, dlt, data⟩
-  if c.toBool then
-    if dlt == DLT_IEEE802_11 then
-      -- parse_80211: drop the 4-byte FCS when the 802.11-Common field says "FCS at end"
-      let fcs := data.length ≥ 13 && byteAt data 12 % 2 == 1
-      if fcs && c.size < 4 then .throw .malformedPacket else
-      let c := if fcs then c.setSize (c.size - 4) else c
-      let rest ← Cursor.rest "PPI::parse_80211" c
-      pure (p, .cls "Dot11*" rest false)
-    else if dlt == DLT_EN10MB then
-      let d3 ← isDot3 c
-      let rest ← Cursor.rest "PPI::PPI inner" c
-      pure (p, .cls (if d3 then "Dot3" else "EthernetII") rest false)
-    else if dlt == DLT_IEEE802_11_RADIO then
-      let rest ← Cursor.rest "PPI::PPI inner" c
-      pure (p, .cls "RadioTap" rest false)
-    else if dlt == DLT_NULL then
-      let rest ← Cursor.rest "PPI::PPI inner" c
-      pure (p, .cls "Loopback" rest false)
-    else if dlt == DLT_LINUX_SLL then
-      let rest ← Cursor.rest "PPI::PPI inner" c
-      pure (p, .cls "SLL" rest false)
-    else pure (p, .none)
-  else pure (p, .none)
+  dispatch ⟨byteAt h 0, byteAt h 1, length, dlt, data⟩ c
 
 def fields (p : Ppi) : Fields :=
   [("version", toString p.version), ("flags", toString p.flags), ("length", toString p.length), ("dlt", toString p.dlt)]
